@@ -1,1 +1,214 @@
-fn main() { eprintln!("stub"); }
+//! intern_mon - engine E2: concurrency monitor for /repo/relay-crates/intern.
+//!
+//! Links the real crate (hook H2 on), runs seeded concurrent workloads with
+//! delay injection, records per-thread event logs and checks them offline.
+//! Prints one JSON report line on stdout.
+mod c05;
+mod c06;
+mod hook;
+mod rng;
+
+use std::collections::BTreeMap;
+
+use serde::Serialize;
+use serde_json::Value;
+
+#[derive(Clone, Debug)]
+pub struct Args {
+    pub mode: String,
+    pub seed: u64,
+    pub count: u64,
+    pub start: u64,
+    pub threads: u32,
+    pub ops: u32,
+    pub profile: String,
+    pub samples: usize,
+    pub progress: Option<String>,
+    pub stamps: Option<bool>,
+    pub no_delays: bool,
+    pub only_hseed: Option<u64>,
+    pub blob_out: Option<String>,
+    pub blob_in: Option<String>,
+    pub timing: bool,
+}
+
+#[derive(Serialize, Clone, Debug)]
+pub struct Finding {
+    pub property: String,
+    pub rule: String,
+    pub signature: String,
+    pub detail: String,
+    pub case: Value,
+}
+
+#[derive(Serialize, Debug)]
+pub struct Report {
+    pub tool: &'static str,
+    pub mode: String,
+    pub histories: u64,
+    pub nontrivial: u64,
+    pub events: u64,
+    pub stats: BTreeMap<String, u64>,
+    pub hook_hits: BTreeMap<String, u64>,
+    pub delays_injected: u64,
+    pub rendezvous_met: u64,
+    pub fp_full: Vec<String>,
+    pub fp_contention: Vec<String>,
+    pub fp_nontrivial: Vec<String>,
+    pub findings: Vec<Finding>,
+    pub findings_dropped: u64,
+    pub samples: Vec<Value>,
+    pub extra: Value,
+}
+
+impl Report {
+    pub fn new(mode: &str) -> Report {
+        Report {
+            tool: "intern_mon",
+            mode: mode.into(),
+            histories: 0,
+            nontrivial: 0,
+            events: 0,
+            stats: BTreeMap::new(),
+            hook_hits: BTreeMap::new(),
+            delays_injected: 0,
+            rendezvous_met: 0,
+            fp_full: vec![],
+            fp_contention: vec![],
+            fp_nontrivial: vec![],
+            findings: vec![],
+            findings_dropped: 0,
+            samples: vec![],
+            extra: Value::Null,
+        }
+    }
+    pub fn add_stat(&mut self, k: &str, v: u64) {
+        *self.stats.entry(k.to_string()).or_default() += v;
+    }
+    pub fn finish_hooks(&mut self) {
+        let (h, d, r) = hook::totals();
+        for (i, v) in h.iter().enumerate().skip(1) {
+            self.hook_hits.insert(hook::SITE_NAMES[i].to_string(), *v);
+        }
+        self.delays_injected = d;
+        self.rendezvous_met = r;
+    }
+}
+
+/// phase timing on stderr (debugging aid; under Miri needs -Zmiri-disable-isolation)
+pub struct Timing(Option<std::time::Instant>);
+impl Timing {
+    pub fn new(a: &Args) -> Timing {
+        Timing(if a.timing { Some(std::time::Instant::now()) } else { None })
+    }
+    pub fn mark(&self, what: &str) {
+        if let Some(t) = self.0 {
+            eprintln!("T {:>10.3?} {}", t.elapsed(), what);
+        }
+    }
+}
+
+pub fn panic_text(p: Box<dyn std::any::Any + Send>) -> String {
+    if let Some(s) = p.downcast_ref::<&str>() {
+        s.to_string()
+    } else if let Some(s) = p.downcast_ref::<String>() {
+        s.clone()
+    } else {
+        "panic".to_string()
+    }
+}
+
+/// progress file: one "index seed" line per history, written before it starts, so that the
+/// driver knows which history killed the process.
+pub fn progress(a: &Args, i: u64, hseed: u64) {
+    if let Some(p) = &a.progress {
+        use std::io::Write;
+        if let Ok(mut f) = std::fs::OpenOptions::new().create(true).append(true).open(p) {
+            let _ = writeln!(f, "{} {}", i, hseed);
+        }
+    }
+}
+
+fn usage() -> ! {
+    eprintln!(
+        "usage: intern_mon <c05|c06|serde-load|noop> [--seed N] [--count N] [--start N] [--threads N] [--ops N]\n\
+         \x20      [--profile native|miri] [--samples N] [--progress FILE] [--stamps on|off] [--no-delays]\n\
+         \x20      [--only-hseed N] [--blob-out FILE] [--blob-in FILE]"
+    );
+    std::process::exit(2)
+}
+
+fn main() {
+    let argv: Vec<String> = std::env::args().collect();
+    if argv.len() < 2 {
+        usage();
+    }
+    let mut a = Args {
+        mode: argv[1].clone(),
+        seed: 1,
+        count: 1,
+        start: 0,
+        threads: 4,
+        ops: 40,
+        profile: if cfg!(miri) { "miri".into() } else { "native".into() },
+        samples: 0,
+        progress: None,
+        stamps: None,
+        no_delays: false,
+        only_hseed: None,
+        blob_out: None,
+        blob_in: None,
+        timing: false,
+    };
+    let mut i = 2;
+    while i < argv.len() {
+        let k = argv[i].as_str();
+        let v = argv.get(i + 1).cloned();
+        let need = || v.clone().unwrap_or_else(|| usage());
+        match k {
+            "--seed" => a.seed = need().parse().unwrap_or_else(|_| usage()),
+            "--count" => a.count = need().parse().unwrap_or_else(|_| usage()),
+            "--start" => a.start = need().parse().unwrap_or_else(|_| usage()),
+            "--threads" => a.threads = need().parse().unwrap_or_else(|_| usage()),
+            "--ops" => a.ops = need().parse().unwrap_or_else(|_| usage()),
+            "--profile" => a.profile = need(),
+            "--samples" => a.samples = need().parse().unwrap_or_else(|_| usage()),
+            "--progress" => a.progress = Some(need()),
+            "--stamps" => a.stamps = Some(need() == "on"),
+            "--only-hseed" => a.only_hseed = Some(need().parse().unwrap_or_else(|_| usage())),
+            "--blob-out" => a.blob_out = Some(need()),
+            "--blob-in" => a.blob_in = Some(need()),
+            "--no-delays" => {
+                a.no_delays = true;
+                i += 1;
+                continue;
+            }
+            "--timing" => {
+                a.timing = true;
+                i += 1;
+                continue;
+            }
+            _ => usage(),
+        }
+        i += 2;
+    }
+    // keep the default panic message on stderr short; the text is captured by catch_unwind
+    std::panic::set_hook(Box::new(|info| {
+        eprintln!("PANIC {}", info);
+    }));
+    let rep = match a.mode.as_str() {
+        "c05" => c05::run(&a),
+        "c06" => c06::run(&a),
+        "serde-load" => c05::serde_load(&a),
+        "noop" => usage(),
+        _ => usage(),
+    };
+    // one write call: under `-Zmiri-many-seeds` several interpreters share this stdout
+    let mut line = serde_json::to_string(&rep).unwrap();
+    line.push('\n');
+    use std::io::Write;
+    let out = std::io::stdout();
+    let mut out = out.lock();
+    out.write_all(line.as_bytes()).unwrap();
+    out.flush().unwrap();
+}
